@@ -237,3 +237,64 @@ PROPS['C19'] = {
     'exhaustive_scope': 'the listed finite product',
     'assumptions': COMMON_ASSUME + ["zeroize 1.x and const-default 1.0 from the offline cargo cache are trusted"],
 }
+
+
+def hex_part():
+    """C14: the same engine source built without and with the crate's `faster-hex` feature; outputs are compared
+    with the per-byte reference inside each engine, and the digests of all outputs are compared across the two builds."""
+    def run(part, tier):
+        shards = 4 if tier == 'quick' else NCPU
+        out = None
+        subs = {}
+        digests = {}
+        profiles = ['dev'] + (['release'] if tier == 'thorough' else [])
+        for prof in profiles:
+            for pkg in ('e_hex', 'e_hex_fh'):
+                cargo_build(pkg, prof)
+                res = run_engine(bin_path(pkg, prof), 'C14', tier, shards=shards, timeout=3600, label=pkg)
+                for v in res['violations']:
+                    v['substrate'] = f'{pkg}:{prof}'
+                    v['desc'] = v.get('desc', '')
+                subs[f'{pkg}({"faster-hex on" if pkg.endswith("fh") else "default features"},{prof})'] = {
+                    'evaluations': res['result'].get('evaluations'), 'violations': len(res['violations']), 'format_calls': res['result'].get('counters', {}).get('format_calls')}
+                digests[(pkg, prof)] = res['result'].get('digests')
+                if out is None:
+                    out = res
+                else:
+                    out['violations'] += res['violations']
+                    out['result']['evaluations'] = out['result'].get('evaluations', 0) + res['result'].get('evaluations', 0)
+                    out['result']['distinct_nontrivial'] = out['result'].get('distinct_nontrivial', 0) + res['result'].get('distinct_nontrivial', 0)
+            if not out['violations'] and digests[('e_hex', prof)] != digests[('e_hex_fh', prof)]:
+                out['violations'].append({'desc': f'C14;cross-build-digest;{prof}', 'what': f"outputs differ between the build without and with faster-hex: {digests[('e_hex', prof)]} vs {digests[('e_hex_fh', prof)]}", 'stable': True})
+        out['substrates'] = subs
+        out['result']['cross_build_digests_equal'] = all(digests[('e_hex', p)] == digests[('e_hex_fh', p)] for p in profiles)
+        return out
+
+    def replay(part, body):
+        sub = body.get('substrate', 'e_hex:dev')
+        pkg, prof = (sub.split(':') + ['dev'])[:2]
+        if pkg not in ('e_hex', 'e_hex_fh'):
+            pkg, prof = 'e_hex', 'dev'
+        cargo_build(pkg, prof)
+        rc, outp, err = run_engine_once(bin_path(pkg, prof), ['--mode', 'C14', '--tier', 'thorough', '--only', body['desc']], None, 600)
+        viols, result, _ = parse_engine_output(outp)
+        if rc not in (0, 2) or result is None:
+            return [{'desc': body['desc'], 'what': f'process died (status {rc}): {err[-400:]}'}]
+        if result.get('evaluations', 0) == 0:
+            raise Machinery(f"replay descriptor matched no case: {body['desc']}")
+        return viols
+    return {'name': 'hex-two-builds', 'run': run, 'replay': replay}
+
+
+PROPS['C14'] = {
+    'level': 'exploration',
+    'technique': 'bounded exhaustive enumeration of (N, byte-at-index pattern, precision, case) on two builds of the real crate (faster-hex off/on) against a per-byte {:02x} reference, plus a cross-build digest comparison',
+    'parts': [hex_part()],
+    'rule': ("N in {0..17,31,32,33,63,64,65,1023,1024,1025,2047,2048,2049,3000,4096} (the three internal strategies and their thresholds) x contents a_k[i] = (37 i + k) mod 256 for all 256 k (N > 65 in the quick tier: 16 values of k) - so every byte "
+             "value occurs at every index - plus all-0x00, all-0xFF and i mod 256 x {:x}, {:X} x precision none and every p in 0..=2N+2 (N <= 65) or the lattice {0,1,2,3,31..33,63..65,2047..2050,4095..4097,6143..6145,N-1,N,N+1,2N-3..2N+1,2N+7} x two builds "
+             "of the crate (default features, faster-hex). A case is one (N, pattern) with all its precisions and both cases; non-trivial = N > 0. Oracle: output == first min(p, 2N) characters of the concatenated two-digit forms; the digests of all outputs "
+             "of the two builds must be equal. Width, fill and '#' flags are not part of the statement and are not asserted."),
+    'exhaustive': True,
+    'exhaustive_scope': "byte-at-index x precision for the listed N; not all 256^N contents (every byte value occurs at every index, not every combination of neighbours)",
+    'assumptions': COMMON_ASSUME + ["faster-hex 0.10 from the offline cargo cache; CPU feature dispatch inside faster-hex follows this machine's CPU (AVX2/SSE4.1 paths as detected at run time)"],
+}
